@@ -29,30 +29,30 @@ type Obl struct {
 }
 
 type Ctx struct {
-	Prop   string
-	Tier   string
-	Seed   int
-	Repo   string
-	Verif  string
-	Tags   string
-	Env    []string
+	Prop    string
+	Tier    string
+	Seed    int
+	Repo    string
+	Verif   string
+	Tags    string
+	Env     []string
 	Overlay map[string][]byte
 
-	Pkgs  []*packages.Package
-	Prog  *ssa.Program
-	Fset  *token.FileSet
+	Pkgs   []*packages.Package
+	Prog   *ssa.Program
+	Fset   *token.FileSet
 	byPath map[string]*packages.Package
 	allFns []*ssa.Function
 
-	Obls     []*Obl
-	seen     map[string]*Obl
-	Analysed map[string]int
-	Notes    []string
+	Obls        []*Obl
+	seen        map[string]*Obl
+	Analysed    map[string]int
+	Notes       []string
 	Explanation string
 	Assumptions []string
-	start    time.Time
-	variants []string
-	fixtures []fixtureResult
+	start       time.Time
+	variants    []string
+	fixtures    []fixtureResult
 }
 
 func (c *Ctx) count(k string, n int) { c.Analysed[k] += n }
@@ -84,10 +84,16 @@ func rank(s string) int {
 	return 1
 }
 
-func (c *Ctx) ok(rule, construct, pos, witness string)   { c.add(rule, construct, pos, "ok", witness, true) }
-func (c *Ctx) okTrivial(rule, construct, pos, w string)  { c.add(rule, construct, pos, "ok", w, false) }
-func (c *Ctx) fail(rule, construct, pos, detail string)  { c.add(rule, construct, pos, "violation", detail, true) }
-func (c *Ctx) undecided(rule, construct, detail string)  { c.add(rule, construct, "", "undecided", detail, true) }
+func (c *Ctx) ok(rule, construct, pos, witness string) {
+	c.add(rule, construct, pos, "ok", witness, true)
+}
+func (c *Ctx) okTrivial(rule, construct, pos, w string) { c.add(rule, construct, pos, "ok", w, false) }
+func (c *Ctx) fail(rule, construct, pos, detail string) {
+	c.add(rule, construct, pos, "violation", detail, true)
+}
+func (c *Ctx) undecided(rule, construct, detail string) {
+	c.add(rule, construct, "", "undecided", detail, true)
+}
 func (c *Ctx) check(cond bool, rule, construct, pos, okw, faild string) {
 	if cond {
 		c.ok(rule, construct, pos, okw)
